@@ -90,10 +90,6 @@ type reflectInspector struct {
 	lpkg *listedPackage
 	pkg  *types.Package
 
-	checkedAPIs map[string]bool
-
-	propagatedInstr map[ssa.Instruction]bool
-
 	result pkgCache
 }
 
@@ -103,27 +99,27 @@ func (ri *reflectInspector) recordReflection(ssaPkg *ssa.Package) {
 		return
 	}
 
-	prevDone := len(ri.result.ReflectAPIs) + len(ri.result.ReflectObjectNames)
-
-	// find all unchecked APIs to add them to checkedAPIs after the pass
-	notCheckedAPIs := make(map[string]bool)
-	for knownAPI := range maps.Keys(ri.result.ReflectAPIs) {
-		if !ri.checkedAPIs[knownAPI] {
-			notCheckedAPIs[knownAPI] = true
+	// Each pass can find new reflect APIs, more reflected parameters for a known API,
+	// or more reflected names, any of which can affect how any other function
+	// in the package is analyzed. Repeat until a whole pass finds nothing new,
+	// so that the result does not depend on the order in which the package's
+	// members, held in a map, happen to be visited.
+	for {
+		prevDone := ri.resultSize()
+		ri.ignoreReflectedTypes(ssaPkg)
+		if ri.resultSize() == prevDone {
+			break
 		}
 	}
+}
 
-	ri.ignoreReflectedTypes(ssaPkg)
-
-	// all previously unchecked APIs have now been checked add them to checkedAPIs,
-	// to avoid checking them twice
-	maps.Copy(ri.checkedAPIs, notCheckedAPIs)
-
-	// if a new reflectAPI is found we need to Re-evaluate all functions which might be using that API
-	newDone := len(ri.result.ReflectAPIs) + len(ri.result.ReflectObjectNames)
-	if newDone > prevDone {
-		ri.recordReflection(ssaPkg) // TODO: avoid recursing
+// resultSize measures how much has been recorded so far; it can only grow.
+func (ri *reflectInspector) resultSize() int {
+	size := len(ri.result.ReflectObjectNames)
+	for _, params := range ri.result.ReflectAPIs {
+		size += 1 + len(params)
 	}
+	return size
 }
 
 // find all functions, methods and interface declarations of a package and record their
@@ -261,23 +257,17 @@ func (ri *reflectInspector) checkFunction(fun *ssa.Function) {
 
 	for _, block := range fun.Blocks {
 		for _, inst := range block.Instrs {
-			if ri.propagatedInstr[inst] {
-				break // already done
-			}
-
 			// fmt.Printf("inst: %v, t: %T\n", inst, inst)
 			switch inst := inst.(type) {
 			case *ssa.Store:
 				obj := typeToObj(inst.Addr.Type())
 				if obj != nil && ri.usedForReflect(obj) {
 					ri.recordArgReflected(inst.Val, make(map[ssa.Value]bool))
-					ri.propagatedInstr[inst] = true
 				}
 			case *ssa.ChangeType:
 				obj := typeToObj(inst.X.Type())
 				if obj != nil && ri.usedForReflect(obj) {
 					ri.recursivelyRecordUsedForReflect(inst.Type())
-					ri.propagatedInstr[inst] = true
 				}
 			case *ssa.Call:
 				callName := ""
@@ -296,11 +286,6 @@ func (ri *reflectInspector) checkFunction(fun *ssa.Function) {
 				callName, genericCall := stripTypeArgs(callName)
 				if flagDebug && genericCall {
 					log.Printf("reflect: normalized call %q to %q", rawCallName, callName)
-				}
-
-				if ri.checkedAPIs[callName] {
-					// only check apis which were not already checked
-					continue
 				}
 
 				/* fmt.Printf("callName: %v\n", callName) */
